@@ -137,6 +137,14 @@ def attribute(ev, labels, flags):
         props.add("C05")
     if kind == "Transact":
         props.add("C08")
+    if kind in ("EthCall", "Estimate", "CallMany"):
+        props.add("C10")
+        if any(l in ("eth_call-result", "callmany-ok", "callmany-outs", "callmany-failidx", "estimate-result") for l in labels):
+            props.add("C17")
+    if kind == "GetLogs":
+        props.add("C18")
+    if "predicted-by-eth_call" in labels or "tx-output" in labels:
+        props.add("C17")
     tx = ev.get("tx") or {}
     if isinstance(tx, dict) and isinstance(tx.get("lc"), dict) and tx["lc"].get("fn") != "none":
         props.add("C07")
@@ -244,6 +252,15 @@ def run_corpus(pid, name, scheds, verdict, shards=8, light=False, net="regtest",
     t0 = time.time()
     traces_p, sched_p, stats = play(name, scheds, shards=shards, light=light, net=net, traces=traces)
     by_run = {i + 1: s for i, s in enumerate(scheds)}
+    kinds = {}
+    for tp in traces_p:
+        for line in open(tp):
+            m = re.match(r'\{"err":"[^"]*","ev":"(\w+)"|.*?"ev":"(\w+)"', line)
+            if m:
+                k = m.group(1) or m.group(2)
+                res = re.search(r'"res":"(\w+)"', line)
+                key = "%s:%s" % (k, res.group(1) if res else "?")
+                kinds[key] = kinds.get(key, 0) + 1
     t1 = time.time()
     rejs, validated, runs_ok, states = validate_traces(name, traces_p, by_run)
     t2 = time.time()
@@ -263,7 +280,7 @@ def run_corpus(pid, name, scheds, verdict, shards=8, light=False, net="regtest",
         except OSError:
             pass
     return {"runs": stats["runs"], "events": stats["events"], "rpc_calls": stats["rpc_calls"],
-            "events_validated": validated, "runs_fully_validated": runs_ok, "tlc_states": states,
+            "events_by_kind": kinds, "events_validated": validated, "runs_fully_validated": runs_ok, "tlc_states": states,
             "rejections": len(rejs), "rejections_of_other_properties": other[:10],
             "play_s": round(t1 - t0, 1), "validate_s": round(t2 - t1, 1)}
 
